@@ -464,7 +464,7 @@ RULE = ('random start-ups of the probe process: 0-3 settings out of the generate
         'pu-step/offset, numa-sensitive, stack sizes, plain ini entries), each given through a random subset of {environment variable, '
         '--pika:ini, command-line option (=, abbreviated or separate-token form, sometimes twice), PIKA_COMMANDLINE_OPTIONS option, '
         'PIKA_COMMANDLINE_OPTIONS --pika:ini} with independent valid / boundary / malformed values, shuffled option order, positional and '
-        'unknown arguments, 6 synthetic topologies; non-trivial = at least one setting given by two or more sources, or a start-up error; '
+        'unknown arguments, positional arguments with quote characters / backslashes / blanks / =, --pika:pu-step / --pika:pu-offset alone, three entry-point variants of the probe (pika::init with f(int,char**), with f(variables_map&), pika::start(nullptr)), 6 synthetic topologies; non-trivial = at least one setting given by two or more sources, or a start-up error; '
         'distinct = distinct (topology, environment, argv)')
 TRUSTED = [
     "Lean 4.33.0 kernel (lake build); axioms admitted: propext, Classical.choice, Quot.sound only (audited with #print axioms on every property theorem each run); no native_decide/bv_decide/sorry/own axioms",
@@ -474,6 +474,8 @@ TRUSTED = [
 ]
 ASSUMPTIONS = [
     'inputs outside the modelled fragment (option files, --, quoting, signed numbers, explicit affinity descriptions, process masks, logging / help / debug options, init_params.cfg) are reported as skip and not validated',
+    'positional arguments that need quoting are outside the resolve model: such cases are started and judged by the monitors only (counted as skip, not as validated); the quoting round trip itself is the subject of C16_positional_roundtrip / C16_late_reparse_total',
+    'deviations of the pinned tree from the property as stated are reported as KNOWN-FINDING (known_findings.txt, one line per input class); every other message of the same monitors is a VIOLATION',
     'per-worker PU masks are compared with those of a start-up that gives the resolved bind/threads/cores directly (metamorphic); the mapping bind description -> masks itself is C15',
 ]
 
